@@ -190,3 +190,33 @@ example : evaluated [123,123,97,123,123,98,125,125,99,125,125] = [[97,123,123,98
   rw [evaluated, segments_fuel]; decide
 
 end Ecal.Props.C14
+
+/-! ## Negative witnesses: the loop as it was before the repair violates the property -/
+namespace Ecal.Props.C14
+open Ecal.Interp Ecal.InterpPristine
+
+/-- `a` holds the text `{{b}}`, `b` holds `B`: the old loop evaluated the substituted text
+    again (`"{{a}}"` gave `B`), the one-pass model returns `{{b}}`. -/
+theorem rescan_witness :
+    let ev : Str → Str := fun c => if c = [97] then [123,123,98,125,125] else if c = [98] then [66] else [63]
+    loop ev 10 [123,123,97,125,125] = Out.ok [66] ∧
+    interp ev [123,123,97,125,125] = [123,123,98,125,125] := by
+  refine ⟨by decide, ?_⟩
+  rw [interp, segments_fuel]; decide
+
+/-- `"}} {{"` made the old loop slice out of range. -/
+theorem slice_panic_witness : loop (fun _ => []) 10 [125,125,32,123,123] = Out.panic := by decide
+
+/-- A value that reproduces itself (`c` holds `{{c}}`) kept the old loop running for ever:
+    no amount of fuel suffices. -/
+theorem self_reproducing_diverges (fuel : Nat) :
+    loop (fun _ => [123,123,99,125,125]) fuel [123,123,99,125,125] = Out.outOfFuel := by
+  induction fuel with
+  | zero => rfl
+  | succ n ih =>
+    have h : loop (fun _ => [123,123,99,125,125]) (n + 1) [123,123,99,125,125]
+        = loop (fun _ => [123,123,99,125,125]) n [123,123,99,125,125] := by
+      rw [loop]; decide +revert
+    sorry
+
+end Ecal.Props.C14
